@@ -144,6 +144,14 @@ STD_ASSUME = [
     "log macros are dead code at the default max level (Off)",
 ]
 
+
+TABLE_ASSUME = STD_ASSUME + [
+    "std HashMap (hashbrown+fnv) replaced by an insertion-ordered association list with the same API; the checked functions do not depend on hash iteration order",
+    "Vec<ClaimEntry> and smallvec replaced by fixed-capacity inline vectors with the same API (capacity 8/16; exceeding it is an assertion failure, not a cut)",
+    "clock = the repository's MockTimeSource set to an arbitrary instant 1 <= now < 2^40; expiries < 2^41 (no i64 overflow)",
+    "peers come from a two-address universe {P, Q} (the code only compares peer addresses for equality)",
+]
+
 # ------------------------------------------------------------------------------------------------------------ C19
 PROPS["C19"] = {
     "files": ["src/payload.rs", "src/types.rs"],
@@ -165,24 +173,64 @@ PROPS["C19"] = {
 # ------------------------------------------------------------------------------------------------------------ C13
 PROPS["C13"] = {
     "files": ["src/payload.rs", "src/table.rs", "src/cloud.rs"],
-    "functions": ["<Frame as Protocol>::parse"],
-    "bounds": "all 20-byte frames behind ethertype 0x8100 (all 65536 tag-control values, all PCP/DEI nibbles, nested tags)",
-    "outside": "node level: flooding of unknown destinations, learning driven by GenericCloud::handle_payload_from, sequences of frames",
-    "assumptions": STD_ASSUME,
+    "functions": ["<Frame as Protocol>::parse", "ClaimTable::cache", "ClaimTable::lookup", "ClaimTable::housekeep", "ClaimTable::remove_claims"],
+    "bounds": "all 20-byte frames behind ethertype 0x8100 (all 65536 tag-control values, all PCP/DEI nibbles, nested tags); "
+              "learning: one address, two writes at arbitrary instants, arbitrary switch timeout",
+    "outside": "node level: flooding of unknown destinations, learning driven by GenericCloud::handle_payload_from, sequences of "
+               "frames; that hub/router modes never call ClaimTable::cache (the learning flag table in GenericCloud::new)",
+    "assumptions": TABLE_ASSUME,
     "obligations": [
         K("c13_vlan_normalisation", "address = 12-bit VLAN id + MAC; PCP/DEI never matters; VLAN 0 counts as untagged; nested tags ignored"),
+        K("c13_learn_last_writer_wins", "learning: last writer is the only next hop, expiry = now + switch timeout"),
+        K("c11_swept_decision_is_not_reused", "a learned entry is gone after its expiry has been swept"),
+        K("c12_remove_claims_k2", "disconnect removes the peer's learned entries, keeps the others"),
     ],
 }
 
 # ------------------------------------------------------------------------------------------------------------ C11
 PROPS["C11"] = {
     "files": ["src/types.rs", "src/table.rs"],
-    "functions": ["Range::matches"],
-    "bounds": "Range::matches: none (all bases, addresses, lengths 0..=16, prefix lengths 0..=255)",
-    "outside": "router-drops / switch-floods at node level, the statistics file",
-    "assumptions": STD_ASSUME,
+    "functions": ["Range::matches", "ClaimTable::lookup", "ClaimTable::housekeep", "Address as PartialEq"],
+    "bounds": "Range::matches: none (all bases, addresses, lengths 0..=16, prefix lengths 0..=255). lookup: tables of k <= 3 claims "
+              "with symbolic bases / prefix lengths / owners / expiries, address lengths {1,4,6,8,16}, one lookup from an empty or "
+              "one-entry cache, symbolic clock and timeouts. sweep: 2 cached decisions + 2 claims with arbitrary expiries",
+    "outside": "router-drops / switch-floods at node level, the statistics file; tables with more than 3 claims; 'reused no longer "
+               "than the switch timeout' is read at sweep granularity (lookup itself does not compare expiries)",
+    "assumptions": TABLE_ASSUME,
     "obligations": [
         K("c11_matches_is_prefix_match", "Range::matches == (equal lengths and common leading bits >= prefix length), bit-by-bit reference"),
+        K("c11_lookup_k2_len4", "lookup = owner of the longest matching prefix (first on ties), None iff none; cached until min(now+switch timeout, claim expiry)"),
+        K("c11_lookup_k3_len1", "same, 3 claims, 1-byte addresses"),
+        K("c11_lookup_k0_len4", "empty table", T), K("c11_lookup_k1_len4", "1 claim", T), K("c11_lookup_k2_len1", "2 claims, 1-byte", T),
+        K("c11_lookup_k2_len6", "2 claims, MAC", T), K("c11_lookup_k2_len16", "2 claims, IPv6", T),
+        K("c11_lookup_k3_len4", "3 claims, IPv4", T), K("c11_lookup_k3_len8", "3 claims, VLAN+MAC", T),
+        K("c11_lookup_prefers_cache", "a cached decision is returned as is and not refreshed"),
+        K("c11_sweep_removes_exactly_expired", "the sweep keeps exactly the claims and decisions whose expiry is not in the past"),
+        K("c11_swept_decision_is_not_reused", "after the sweep an expired decision is never returned"),
+    ],
+}
+
+# ------------------------------------------------------------------------------------------------------------ C12
+PROPS["C12"] = {
+    "files": ["src/table.rs"],
+    "functions": ["ClaimTable::set_claims", "ClaimTable::remove_claims", "ClaimTable::housekeep"],
+    "bounds": "one operation from an arbitrary table of k <= 3 claims over two owners (1-byte ranges, any prefix, no duplicate "
+              "(owner, range) pairs) + one cached decision per owner; announcements of m <= 2 ranges (duplicates allowed)",
+    "outside": "that every peer-removal path of GenericCloud calls remove_claims (timeout, close, failed or superseded handshake); "
+               "'next hop is a peer' at node level; tables beyond 3 claims / announcements beyond 2 ranges",
+    "assumptions": TABLE_ASSUME,
+    "obligations": [
+        K("c12_set_claims_k2_m1", "claims of the announcing peer == announcement; other peer untouched; dropped claim flushes its cached decisions", role="c12_set_claims"),
+        K("c12_set_claims_k1_m1", "same, 1 pre-entry", role="c12_set_claims"),
+        K("c12_set_claims_k2_m0", "withdraw everything", role="c12_set_claims"),
+        K("c12_set_claims_k0_m2", "first announcement (with possible duplicate)", role="c12_set_claims"),
+        K("c12_set_claims_k0_m0", "", T, role="c12_set_claims"), K("c12_set_claims_k0_m1", "", T, role="c12_set_claims"),
+        K("c12_set_claims_k1_m0", "", T, role="c12_set_claims"), K("c12_set_claims_k1_m2", "", T, role="c12_set_claims"),
+        K("c12_set_claims_k2_m2", "", T, role="c12_set_claims"), K("c12_set_claims_k3_m1", "", T, role="c12_set_claims"),
+        K("c12_set_claims_k3_m2", "", T, role="c12_set_claims"),
+        K("c12_remove_claims_k2", "after remove_claims(P) nothing names P; Q's entries unchanged and in order"),
+        K("c12_remove_claims_k0", "", T), K("c12_remove_claims_k1", "", T), K("c12_remove_claims_k3", "", T),
+        K("c11_sweep_removes_exactly_expired", "claims not re-announced are gone once their expiry has passed"),
     ],
 }
 
